@@ -22,6 +22,8 @@ if [ "$check" = c12 ]; then
 fi
 case "$check" in
   c18) export LSMC_TAGS=vfs; bin=lsmc-vfs ;;   # VFS code needs -tags vfs (cgo)
+  c10) # the command-line half of C10 drives the real `litestream restore` binary, built from the tree under test
+       ( cd /repo && go build -o "$VERIF_ROOT/bin/litestream-cli" ./cmd/litestream ) || { echo "BUILD FAILED (cmd/litestream)"; exit 2; } ;;
 esac
 ./tools/build.sh /repo "$VERIF_ROOT/harness" "$VERIF_ROOT/bin/$bin" || { echo "BUILD FAILED (harness or /repo does not compile with -tags verif)"; exit 2; }
 exec ./bin/$bin "$check" "$@"
